@@ -18,6 +18,7 @@ MAXC = @@MAXC@@            # bound on |classes|
 NA = @@NA@@                # number of symbolic argument texts (0 when CARGS is given)
 CARGS = @@CARGS@@          # None, or concrete placeholder argument texts (state-heavy shards keep the arguments concrete)
 CASES = @@CASES@@          # letter-case variants of the command name explored in this shard: 0 lower, 1 UPPER, 2 Capitalized
+BLANKDOC = @@BLANKDOC@@    # the doccomment may be empty ('#[[[' / '#]]' with no text line): symbolic choice
 SYMKW = @@SYMKW@@          # kwargs flag of every open definition frame symbolic (C03) or False
 ALEN = @@ALEN@@            # exact length of each symbolic argument text
 SYMFLAGS = @@SYMFLAGS@@    # ten include_undocumented_* flags symbolic (C08) or default
@@ -147,7 +148,7 @@ def partner(abs_e, st, agg, pairs):
 
 
 def check(defs: List[bool], kw: List[bool], classes: List[bool], pending: int, documented: bool, case: int, cps: $$CPS$$,
-          ef: bool, ncps: $$NT$$, flags: List[bool], fcps: $$FT$$, line: int, col: int) -> bool:
+          ef: bool, ncps: $$NT$$, flags: List[bool], fcps: $$FT$$, line: int, col: int, blank: bool) -> bool:
     """
     pre: len(defs) <= MAXD and len(kw) == (len(defs) if SYMKW else 0) and len(classes) <= MAXC and 0 <= pending <= 2 and case in CASES
     pre: _argsok(cps)
@@ -161,6 +162,7 @@ def check(defs: List[bool], kw: List[bool], classes: List[bool], pending: int, d
     pre: hc.cps_ok(fcps, bad=(10, 13)) if FREE else fcps == (0,)
     pre: (_identifier(ncps) and all(hc.S(ncps).lower() != s for s in SPECIAL)) if KIND == "@other" else ncps == (0,)
     pre: not ef or KIND in ("ct_add_test", "ct_add_section")
+    pre: (BLANKDOC and documented) or not blank
     pre: REGION is None or (_region(documented, flags) == (REGION[1] == "in"))
     post: _
     """
@@ -201,13 +203,16 @@ def check(defs: List[bool], kw: List[bool], classes: List[bool], pending: int, d
     args = make_args(a if CARGS is None else CARGS, ef)
     block = (DOCBLOCK_HEAD + doctext + DOCBLOCK_TAIL) if documented else None
     cleaned = (doctext + chr(10)) if documented else ""
+    if blank:
+        block = hc.canon_block("", [])       # a doccomment without any text still is a doccomment: the command carries one
+        cleaned = ""
     tree = hc.file_ctx([(block, cname, [(hc.ID, x) for x in args])], line0=line, column=col)
     # ---- real step (must not raise on a well-formed command: C05.d)
     try:
         ParseTreeWalker().walk(agg, tree)
     except Exception:
         return hc.report(False, defs=defs, kw=kw, classes=classes, pending=pending, documented=documented, case=case, cps=cps, ef=ef,
-                         ncps=ncps, flags=flags, fcps=fcps, line=line, col=col)
+                         ncps=ncps, flags=flags, fcps=fcps, line=line, col=col, blank=blank)
     # ---- specification step
     delta.step(st, documented, cleaned, cname, args, fl, trigger, strip)
     # ---- compare post-states
@@ -247,4 +252,4 @@ def check(defs: List[bool], kw: List[bool], classes: List[bool], pending: int, d
         for j in range(len(args) - 1):
             ok = ok and _shim.log[j][0] == which and _shim.log[j][1] == args[j + 1]
     return hc.report(ok, defs=defs, kw=kw, classes=classes, pending=pending, documented=documented, case=case, cps=cps, ef=ef,
-                     ncps=ncps, flags=flags, fcps=fcps, line=line, col=col)
+                     ncps=ncps, flags=flags, fcps=fcps, line=line, col=col, blank=blank)
